@@ -52,6 +52,12 @@ func runC12(opt *Options) int {
 			sib = append(sib, c)
 		}
 	}
+	// a method-level goverter:context line holds for that method only
+	for _, c := range layerb.FamilySignature(false) {
+		if strings.Contains(c.ID, "signature/context_line_") || strings.Contains(c.ID, "signature/bare_") || strings.Contains(c.ID, "signature/context_names_") {
+			sib = append(sib, c)
+		}
+	}
 	// siblings with different `enum` settings sharing an enum type (value obligations)
 	var enumSib []*layerb.Conv
 	for _, c := range layerb.FamilyEnum(false) {
